@@ -1,10 +1,10 @@
 from six import python_2_unicode_compatible
 
-from mpilot.exceptions import MPilotError
+from mpilot.exceptions import ProgramError
 
 
 @python_2_unicode_compatible
-class NoSuchVariable(MPilotError):
+class NoSuchVariable(ProgramError):
     def __init__(self, path, variable, lineno=None):
         # type: (str, str, int) -> None
 
@@ -23,7 +23,7 @@ class NoSuchVariable(MPilotError):
 
 
 @python_2_unicode_compatible
-class InvalidPositiveData(MPilotError):
+class InvalidPositiveData(ProgramError):
     def __init__(self, path, expected_type, lineno=None):
         # type: (str, str, int) -> None
 
@@ -44,7 +44,7 @@ class InvalidPositiveData(MPilotError):
 
 
 @python_2_unicode_compatible
-class InvalidFuzzyData(MPilotError):
+class InvalidFuzzyData(ProgramError):
     def __init__(self, path, lineno=None):
         # type: (str, int) -> None
 
